@@ -77,6 +77,12 @@ def project_nuts(run):
             e0ok = True
             if last_mom is not None and "e" in last_mom:
                 e0ok = (last_mom["e"] == last_mom["e0"] == ev["e0"]) or (f_from_bits(ev["e0"]) != f_from_bits(ev["e0"]))
+                # ... and with the log-determinant of the transformation that is active now (not the one the point
+                # was normalised with before an update)
+                if last_mom.get("logdet_now") and last_mom.get("logdet"):
+                    ld, ldn = f_from_bits(last_mom["logdet"]), f_from_bits(last_mom["logdet_now"])
+                    if ld == ld and ldn == ldn and last_mom["logdet"] != last_mom["logdet_now"]:
+                        e0ok = False
             out.append({"e": "init", "mind": ev["mind"], "maxd": ev["maxd"], "cfgMaxd": ev["cfg_maxd"],
                         "extra": ev["extra"], "check": ev["check"], "dim": ev["dim"], "ph": ev["ph"],
                         "e0": ev["e0"], "logp": ev["logp"], "e0ok": bool(e0ok)})
@@ -526,11 +532,19 @@ def project_schema(sc, run):
                 else:
                     st.append({"name": name, "present": True, "t": v["t"], "n": v["n"]})
             diverging = sval(e["stats"], "diverging")
+            # option-controlled statistics (not events): present on every draw iff their own flag is set
+            pres = {x["name"]: x["present"] for x in st}
+            stg = sc.get("settings", {})
+            flagok = True
+            for nm, flag in (("unconstrained_draw", "store_unconstrained"), ("gradient", "store_gradient"),
+                             ("transformed_position", "store_transformed"), ("transformed_gradient", "store_transformed")):
+                if nm in pres and flag in stg and pres[nm] != bool(stg[flag]):
+                    flagok = False
             changed = (tid is not None and tid != last_tid and "flow" not in sc["preset"])
             if tid is not None:
                 last_tid = tid
             out.append({"e": "draw", "st": st, "diverging": bool(diverging), "changed": bool(changed),
-                        "counter": sval(e["stats"], "draw"), "chain": sval(e["stats"], "chain")})
+                        "counter": sval(e["stats"], "draw"), "chain": sval(e["stats"], "chain"), "flagok": bool(flagok)})
     return out
 
 
